@@ -32,6 +32,9 @@ func builds() []wh.Build {
 		// three levels, every level holding a file, a symlink and an empty directory; a symlink to a directory
 		{wh.F("r", "=r"), wh.L("rl", "a/b"), wh.D("re"), wh.F("a/f", "E/100"), wh.L("a/l", "f"), wh.D("a/e"),
 			wh.F("a/b/f", "F.G"), wh.L("a/b/l", "../f"), wh.D("a/b/e"), wh.F("a/b/empty", "")},
+		// unusual names and permission bits
+		{wh.FM("ro", "N/100", 0o444), wh.FM("priv/x", "=p", 0o600), wh.F("saves../slot1", "=s1"), wh.F("Case/x", "=1"), wh.F("case/x", "=2"),
+			wh.F("a b/c d", "O/65535"), wh.L("Case/l", "../case/x"), wh.D("\u00e9t\u00e9")},
 	}
 }
 
